@@ -1,6 +1,7 @@
 // ovmsim driver: seeded batches on in-process workers, gating (fresh-process replay x2), shrinking, replay files,
 // known-findings, evidence.
 #include <cerrno>
+#include <cstring>
 #include <chrono>
 #include <csignal>
 #include <fcntl.h>
@@ -8,6 +9,7 @@
 #include <iostream>
 #include <poll.h>
 #include <sys/personality.h>
+#include <sys/resource.h>
 #include <sys/stat.h>
 #include <sys/wait.h>
 #include <unistd.h>
@@ -50,7 +52,24 @@ using namespace sim;
 
 static double now_s() { return std::chrono::duration<double>(std::chrono::steady_clock::now().time_since_epoch()).count(); }
 static std::string g_tmpdir;
+// CPU seconds (user+system) a process has consumed so far: watchdogs count CPU time, not wall time, so that a loaded
+// machine (other checks running beside this one) cannot turn a slow run into a "nontermination" verdict.
+static double cpu_s(pid_t pid) {
+    char path[64]; snprintf(path, sizeof path, "/proc/%d/stat", (int)pid);
+    FILE *f = fopen(path, "r"); if (!f) return 0;
+    char buf[1024]; size_t n = fread(buf, 1, sizeof buf - 1, f); fclose(f); buf[n] = 0;
+    const char *rp = strrchr(buf, ')'); if (!rp) return 0;
+    unsigned long ut = 0, st = 0; long cut = 0, cst = 0;
+    // fields after ')': state ppid pgrp session tty tpgid flags minflt cminflt majflt cmajflt utime stime cutime cstime
+    if (sscanf(rp + 1, " %*c %*d %*d %*d %*d %*d %*u %*u %*u %*u %*u %lu %lu %ld %ld", &ut, &st, &cut, &cst) < 2) return 0;
+    return (double)(ut + st + (unsigned long)(cut > 0 ? cut : 0) + (unsigned long)(cst > 0 ? cst : 0)) / (double)sysconf(_SC_CLK_TCK);
+}
 
+static double self_cpu_s() {
+    double t = 0; struct rusage ru;
+    for (int who : {RUSAGE_SELF, RUSAGE_CHILDREN}) if (getrusage(who, &ru) == 0) t += ru.ru_utime.tv_sec + ru.ru_stime.tv_sec + 1e-6 * (ru.ru_utime.tv_usec + ru.ru_stime.tv_usec);
+    return t;
+}
 static std::string stats_line(const RunResult &r) {
     std::ostringstream o;
     bool first = true;
@@ -130,6 +149,7 @@ static ChildOut run_in_child(World *w, const Plan &plan, double timeout_s = 60) 
         close(pr[0]); close(pe[0]);
         dup2(pe[1], 2);
         g_on_nontermination = nonterm_exit;
+        { struct rlimit rl; rl.rlim_cur = rl.rlim_max = (rlim_t)(timeout_s * 2); setrlimit(RLIMIT_CPU, &rl); }   // inherited by a world's own sub-process (FROZEN)
         RunResult r = w->execute(plan);
         std::ostringstream o;
         o << (r.violation ? "V" : r.inconclusive ? "I" : "O") << " " << std::hex << r.loghash << std::dec << " " << r.at_op << " " << (r.cls.empty() ? "-" : r.cls) << " " << one_line(r.detail) << "\n";
@@ -151,7 +171,7 @@ static ChildOut run_in_child(World *w, const Plan &plan, double timeout_s = 60) 
             if (n > 0) { std::string &dst = i == 0 ? so : out.stderr_txt; if (dst.size() < (1 << 20)) dst.append(buf, n); }
             else { close(fds[i].fd); fds[i].fd = -1; --open_fds; }
         }
-        if (now_s() - t0 > timeout_s) { kill(pid, SIGKILL); out.timed_out = true; break; }
+        if (cpu_s(pid) > timeout_s || now_s() - t0 > 30 * timeout_s) { kill(pid, SIGKILL); out.timed_out = true; break; }
     }
     for (auto &f : fds) if (f.fd >= 0) close(f.fd);
     waitpid(pid, &out.status, 0);
@@ -282,7 +302,7 @@ static int cmd_run(int argc, char **argv) {
     printf("ovmsim prop=%s world=%s tier=%s seed=%llu workers=%d budget=%.0fs\n", prop.c_str(), pi->world, tier.c_str(), (unsigned long long)master, workers, budget);
     fflush(stdout);
 
-    struct Worker { pid_t pid = -1; int fd = -1; uint64_t next = 0; std::string buf; long cur = -1; double last_io = 0; bool done = false; bool killed_by_watchdog_stop = false; };
+    struct Worker { pid_t pid = -1; int fd = -1; uint64_t next = 0; std::string buf; long cur = -1; double last_io = 0, cpu0 = 0; bool done = false; bool killed_by_watchdog_stop = false; };
     bool stopping = false;
     std::vector<Worker> ws(workers);
     Agg agg;
@@ -306,7 +326,9 @@ static int cmd_run(int argc, char **argv) {
                 Plan plan = w->generate(prop, seed, thorough);
                 fprintf(out, "B %llu\n", (unsigned long long)i);
                 fflush(out);
+                double c0 = self_cpu_s();
                 RunResult r = w->execute(plan);
+                r.st.n["max_run_cpu_ms"] = (long)((self_cpu_s() - c0) * 1000);
                 fprintf(out, "E %llu %s %llx %s %d %s | %s\n", (unsigned long long)i, r.violation ? "V" : r.inconclusive ? "I" : "O",
                         (unsigned long long)r.loghash, r.cls.empty() ? "-" : r.cls.c_str(), r.at_op, stats_line(r).c_str(), one_line(r.detail).c_str());
                 fflush(out);
@@ -320,7 +342,7 @@ static int cmd_run(int argc, char **argv) {
     };
     for (int i = 0; i < workers; ++i) { ws[i].next = i; spawn(i); }
     auto handle_line = [&](Worker &wk, const std::string &line) {
-        if (line[0] == 'B') { wk.cur = atol(line.c_str() + 2); return; }
+        if (line[0] == 'B') { wk.cur = atol(line.c_str() + 2); wk.cpu0 = cpu_s(wk.pid); return; }
         if (line[0] == 'D') { wk.done = true; return; }
         if (line[0] != 'E') return;
         std::istringstream l(line.substr(2));
@@ -328,7 +350,7 @@ static int cmd_run(int argc, char **argv) {
         l >> idx >> v >> std::hex >> lh >> std::dec >> cls >> at >> kv >> nts >> tris;
         wk.cur = -1; wk.next = idx + workers;
         agg.runs++;
-        if (kv != "-") { std::istringstream k(kv); std::string item; while (std::getline(k, item, ';')) { auto e = item.find('='); if (e != std::string::npos) agg.n[item.substr(0, e)] += atol(item.c_str() + e + 1); } }
+        if (kv != "-") { std::istringstream k(kv); std::string item; while (std::getline(k, item, ';')) { auto e = item.find('='); if (e != std::string::npos) { std::string key = item.substr(0, e); long val = atol(item.c_str() + e + 1); if (key.rfind("max_", 0) == 0) agg.n[key] = std::max(agg.n[key], val); else agg.n[key] += val; } } }
         if (nts != "-") { std::istringstream k(nts); std::string item; while (std::getline(k, item, ',')) agg.nontrivial.insert(strtoull(item.c_str(), nullptr, 16)); }
         if (tris != "-") { std::istringstream k(tris); std::string item; while (std::getline(k, item, ',')) agg.trigrams.insert(strtoull(item.c_str(), nullptr, 16)); }
         if (v == "V") cands.push_back({idx, cls, false});
@@ -364,7 +386,7 @@ static int cmd_run(int argc, char **argv) {
                     }
                     --alive;
                 }
-            } else if (wk.cur >= 0 && now_s() - wk.last_io > 90) {
+            } else if (wk.cur >= 0 && now_s() - wk.last_io > 5 && (cpu_s(wk.pid) - wk.cpu0 > 90 || now_s() - wk.last_io > 2700)) {
                 kill(wk.pid, SIGKILL);  // hang watchdog (non-IO code has no step clock); confirmed by replay below
             }
         }
@@ -564,6 +586,7 @@ int main(int argc, char **argv) {
     signal(SIGPIPE, SIG_IGN);
     if (const char *e = getenv("OVMSIM_SCRATCH")) g_scratch_dir = e;
     mkdir(g_scratch_dir.c_str(), 0755);
+    { char rp[4096]; if (realpath(g_scratch_dir.c_str(), rp)) g_scratch_dir = rp; }   // the syscall seam recognises its file by the /proc/self/fd link, i.e. the canonical path
     if (argc < 2) { fprintf(stderr, "usage: ovmsim run|replay|selftest ...\n"); return 2; }
     std::string cmd = argv[1];
     if (cmd == "run") return cmd_run(argc, argv);
